@@ -1136,8 +1136,9 @@ Proof.
   destruct (get_store st src) as [s|] eqn:Es; [|apply Good_nil; now apply Good_refl].
   destruct (get_store st dst) as [d|] eqn:Ed; [|apply Good_nil; now apply Good_refl].
   destruct (s_objs s) as [|p ps] eqn:Eo.
-  { simpl. eapply Good_weaken; [|now apply Good_refl]. intros j k A. split; [exact A|].
-    intros [_ Hin]. unfold migrate_items in Hin. simpl in Hin. destruct Hin. }
+  { simpl. apply (Good_weaken E); [|now apply Good_refl]. intros j k A. split; [exact A|].
+    intros [_ Hin]. unfold migrate_items in Hin. apply in_map_iff in Hin as (it & _ & Hit).
+    apply in_flat_map in Hit as (k0 & _ & Hk). simpl in Hk. destruct Hk. }
   rewrite <- Eo. simpl.
   destruct (add_link_ok E st dst (migrate_items H (s_alg d) (s_objs s) order) hard) as (A & B & C); auto.
   - intros it Hin. unfold migrate_items in Hin.
@@ -1400,6 +1401,21 @@ Proof.
   intros HI Hw Hs Hc Ho.
   destruct (C01_step_leftover E st _ HI Hw si s k o Hs Ho) as [_ Hm].
   destruct (Hm Hc) as [?|[_ Hn]]; [assumption|]. exfalso. apply Hn. split; [reflexivity|now left].
+Qed.
+
+(* the same for every operation: whatever ids an operation adds or covers ([covered]) are read-only
+   in a local-class store afterwards - also the ones that were leftovers *)
+Definition dvc_op (o : op) : Prop := match o with OReopen _ _ | ORot _ _ _ => False | _ => True end.
+
+Theorem C01_covers E st o s k ob :
+  InvE E st -> WfOp st o -> dvc_op o ->
+  nth_error (st_stores (step H st o)) (fst (covered st o)) = Some s -> s_cls s = Local ->
+  In k (snd (covered st o)) -> alookup k (s_objs s) = Some ob -> o_mode ob = mode_ro.
+Proof.
+  intros HI Hw Hd Hs Hc Hin Ho.
+  destruct (C01_step_leftover E st o HI Hw _ s k ob Hs Ho) as [_ Hm].
+  destruct (Hm Hc) as [?|Hl]; [assumption|]. exfalso.
+  destruct o; try contradiction; destruct Hl as [_ Hn]; apply Hn; now split.
 Qed.
 
 (* the boolean checker the correspondence run evaluates on every generated operation is sound *)
